@@ -5,7 +5,7 @@ from progprop import replay
 
 
 def run(tier, prop='C16'):
-    return progprop.run(prop, tier, tmpl.finite_domains(), prop.lower(),
+    return progprop.run(prop, tier, tmpl.finite_domains(tier), prop.lower(),
                         'CLP(FD) programs (infd / infdrange over small signed interval and sparse domains; ltefd, ltfd, plusfd, minusfd, timesfd, diseqfd, '
                         'distinctfd with operand aliasing, symbolic integer constants, constraints posted before and after domains and unifications, hidden '
                         'variables, list-shaped query terms) are executed symbolically from MIR through propagation and labeling (reify / force_ans / map_sum / '
